@@ -17,6 +17,24 @@ class UserError(Exception):
     pass
 
 
+# what a user's function may raise: the object that arrives at the consumer must be the one raised
+_USER_EXC_CLASSES = [UserError, TypeError, ValueError, KeyError, AssertionError, ZeroDivisionError, LookupError, OSError,
+                     E.YPException, AttributeError, IndexError]
+_RAISED = []
+
+
+def user_exception(tag):
+    cls = _USER_EXC_CLASSES[sum(map(ord, tag)) % len(_USER_EXC_CLASSES)]
+    e = cls(tag)
+    del _RAISED[:-20]
+    _RAISED.append(e)
+    return e
+
+
+def is_user_exception(e):
+    return any(e is x for x in _RAISED)
+
+
 class Ctx:
     debug_filename = ''
     debug_parser = False
@@ -91,6 +109,8 @@ def bound_count():
 
 
 def exn_name(e):
+    if is_user_exception(e):
+        return [Sym('exn'), 'UserError']
     if isinstance(e, RecursionError):
         return Sym('oof')
     if isinstance(e, E.YPException):
@@ -108,13 +128,13 @@ def make_pypred(yp, rows, raise_at, yield_val=False, nparams=None):
     def impl(*args):
         for i, (nv, terms) in enumerate(rows):
             if raise_at == i:
-                raise UserError('row %d' % i)
+                raise user_exception('row %d of %d' % (i, len(rows)))
             vs = {}
             row = [build_term(yp, t, vs) for t in terms]
             for _ in E.unify_arrays(list(args), row):
                 yield yield_val
         if raise_at == len(rows):
-            raise UserError('end')
+            raise user_exception('end of %d' % len(rows))
     if nparams is None:
         return impl
     names = ','.join('a%d' % i for i in range(nparams))
@@ -264,7 +284,7 @@ class RealEngine:
         def proj(x):
             calls[0] += 1
             if raise_at is not None and calls[0] >= raise_at:
-                raise UserError('projection')
+                raise user_exception('projection %d' % calls[0])
             return canon_terms(args)
         before = sys.getrecursionlimit()
         q = self.yp.query(name, args)
@@ -272,10 +292,8 @@ class RealEngine:
         answers = []
         try:
             answers = self.yp.evaluate_bounded(q, proj, recursion_limit=limit)
-        except UserError as e:
-            ending = [Sym('exn'), 'ConsumerError']
         except Exception as e:
-            ending = exn_name(e)
+            ending = [Sym('exn'), 'ConsumerError'] if is_user_exception(e) and str(e.args[0]).startswith('projection') else exn_name(e)
         after = sys.getrecursionlimit()
         b1 = bound_count()        # while the caller still holds q
         del q
